@@ -3,6 +3,7 @@ package checks
 import (
 	"bufio"
 	"bytes"
+	"crypto/ed25519"
 	"encoding/json"
 	"fmt"
 	"os"
@@ -85,6 +86,12 @@ func c18objects(seed int64, keys *gen.KeyRing, n int) []*c18object {
 		algSpell := (i / 7) % 3 // 0: Algorithm, 1: int64, 2: int
 		mkHeaders := func(alg cose.Algorithm) cose.Headers {
 			h := c01headers(r, alg, 1, 4, mon.Pick(r, 0, 0, 14, 240))
+			if h.Protected == nil {
+				h.Protected = cose.ProtectedHeader{}
+			}
+			if h.Unprotected == nil {
+				h.Unprotected = cose.UnprotectedHeader{}
+			}
 			for key := range h.Protected {
 				if nl, ok := refNorm(key); ok && nl == 1 {
 					delete(h.Protected, key)
@@ -101,6 +108,23 @@ func c18objects(seed int64, keys *gen.KeyRing, n int) []*c18object {
 			return h
 		}
 		decoded := (i/21)%2 == 1
+		if (i/42)%7 == 0 && i%7 == 5 && !decoded {
+			// a hand-assembled message with zero-value Headers (nil maps, no alg): verifiable only with external data
+			ext2 := []byte("external data")
+			m := &cose.Sign1Message{Payload: payload}
+			if m.Sign(gen.Entropy, ext2, k.Signer) == nil {
+				o := &c18object{name: fmt.Sprintf("sign1-zero-headers-%d", i), kind: "sign1-nil-header-maps", alg: k.Name}
+				o.state = func() []any { return []any{m, ext2, k.Verifier} }
+				o.ops = []c18op{
+					{"Verify", func() string { return resErr(m.Verify(ext2, k.Verifier)) }},
+					{"Verify(no external)", func() string { return resErr(m.Verify(nil, k.Verifier)) }},
+					{"MarshalCBOR", func() string { return resBytes(m.MarshalCBOR()) }},
+					{"Untagged.Verify", func() string { return resErr((*cose.UntaggedSign1Message)(m).Verify(ext2, k.Verifier)) }},
+				}
+				out = append(out, o)
+				continue
+			}
+		}
 		switch (i / 42) % 7 {
 		case 0: // Sign1 / Untagged
 			m := &cose.Sign1Message{Headers: mkHeaders(k.Alg), Payload: payload}
@@ -180,6 +204,9 @@ func c18objects(seed int64, keys *gen.KeyRing, n int) []*c18object {
 		case 2: // countersignature + parent
 			pk := keys.Keys[(i+1)%4]
 			parent := &cose.Sign1Message{Headers: c01headers(r, pk.Alg, 0, 3, 0), Payload: payload}
+			if parent.Headers.Unprotected == nil {
+				parent.Headers.Unprotected = cose.UnprotectedHeader{}
+			}
 			if parent.Sign(gen.Entropy, nil, pk.Signer) != nil {
 				continue
 			}
@@ -259,6 +286,18 @@ func c18objects(seed int64, keys *gen.KeyRing, n int) []*c18object {
 				continue
 			}
 			ck.ID = []byte("kid")
+			if i%7 == 2 || i%7 == 3 {
+				// application-defined / named byte-slice types as parameter values
+				for _, l := range []int64{-2, -3, -4} {
+					if b, ok := ck.Params[l].([]byte); ok {
+						if l == -2 {
+							ck.Params[l] = ed25519.PublicKey(b)
+						} else {
+							ck.Params[l] = namedBytes(b)
+						}
+					}
+				}
+			}
 			if (i/7)%2 == 1 {
 				ck.Algorithm = cose.AlgorithmReserved // no alg parameter: the algorithm is derived from the curve on every use
 			}
